@@ -904,8 +904,8 @@ example : (relateSpec (.line ⟨0, 0⟩ ⟨2, 0⟩) (.line ⟨1, 0⟩ ⟨3, 0⟩
 `boundary_dimensions` of Line, LineString (first coordinate, `any` over the rest; `is_closed` read off geo-types),
 Polygon (the three `let Some(..) = coords.next()/find(..) else { return .. }` steps on the exterior iterator), Rect,
 Triangle, `dimensions` of MultiLineString (loop with early `return OneDimensional`) and MultiPolygon (loop with the
-`TwoDimensional` short cut and `max`; also its `boundary_dimensions`), MultiPoint, GeometryCollection (`dimensions`: the
-same loop, the recursive call through the `Geometry` enum being `dims` itself), `is_empty` of LineString / Polygon /
+`TwoDimensional` short cut and `max`; also its `boundary_dimensions`), MultiPoint, GeometryCollection (`dimensions` and
+`boundary_dimensions`: the same loops, the recursive calls through the `Geometry` enum being `dims` / `boundaryDims`), `is_empty` of LineString / Polygon /
 MultiPoint / MultiLineString / MultiPolygon — equal the clauses of the model's `dims`, `boundaryDims`, `isEmptyG`. -/
 theorem hasDimensions_eq_source :
     (∀ cs, isClosedLS cs = Gen.lineStringIsClosed cs) ∧
@@ -927,12 +927,13 @@ theorem hasDimensions_eq_source :
     (∀ ps, dims (.multiPoint ps) = Gen.multiPointDimensions ps ∧ isEmptyG (.multiPoint ps) = Gen.multiPointIsEmpty ps) ∧
     (∀ ls, isEmptyG (.multiLineString ls) = Gen.multiLineStringIsEmpty ls) ∧
     (∀ ps, isEmptyG (.multiPolygon ps) = Gen.multiPolygonIsEmpty ps) ∧
-    (∀ gs, dims (.collection gs) = Gen.geometryCollectionDimensions dims gs) := by
+    (∀ gs, dims (.collection gs) = Gen.geometryCollectionDimensions dims gs) ∧
+    (∀ gs, boundaryDims (.collection gs) = Gen.geometryCollectionBoundaryDimensions boundaryDims gs) := by
   refine ⟨Geo.Proofs.TRANDims.isClosedLS_eq, Geo.Proofs.TRANDims.lineDims_eq, Geo.Proofs.TRANDims.lineBoundaryDims_eq,
     ?_, ?_, ?_, ?_, ?_, ?_, ?_, ?_, ?_, ?_, Geo.Proofs.TRANDims.isEmpty_eq.1, Geo.Proofs.TRANDims.isEmpty_eq.2,
     fun ps => by simp only [boundaryDims]; exact Geo.Proofs.TRANDims.mpolyBoundaryDims_eq ps,
     Geo.Proofs.TRANDims.multiPoint_eq, Geo.Proofs.TRANDims.multiIsEmpty_eq.1, Geo.Proofs.TRANDims.multiIsEmpty_eq.2,
-    Geo.Proofs.TRANDims.gcDims_eq⟩
+    Geo.Proofs.TRANDims.gcDims_eq, Geo.Proofs.TRANDims.gcBoundaryDims_eq⟩
   · intro cs; simp only [dims]; exact Geo.Proofs.TRANDims.lsDims_eq cs
   · intro cs; simp only [boundaryDims]; exact Geo.Proofs.TRANDims.lsBoundaryDims_eq cs
   · intro q; simp only [dims]; exact Geo.Proofs.TRANDims.polyDims_eq q
